@@ -397,6 +397,11 @@ func runRefactorsFor(prop, repo, vdir string) map[string]any {
 	}
 	if len(out) > 0 {
 		fmt.Printf("  refactorings: %d behaviour-preserving changes, silent=%d false-alarms=%d\n", len(out), silent, alarms)
+		for _, r := range out {
+			if strings.HasPrefix(r.Status, "FALSE") || strings.HasPrefix(r.Status, "error") {
+				fmt.Printf("    %s: %s\n", r.ID, r.Status)
+			}
+		}
 	}
 	return map[string]any{"changes": len(out), "silent": silent, "false_alarms": alarms, "results": out}
 }
